@@ -8,7 +8,7 @@ EXTENDS LiveTimelineImpl
 Mk(d, v, ts, tsbdv, atov, snrv, astv, g, lp) ==
   LET l == ISum(d, Len(d)) IN
   [N |-> Len(d), dur |-> d, vod0 |-> v, TS |-> ts, loopMS |-> (l * 1000) \div ts, tsbd |-> tsbdv, ato |-> atov, snr |-> snrv,
-   ast |-> astv, fix |-> FALSE, grain |-> g, loops |-> lp]
+   ast |-> astv, fix |-> TRUE, grain |-> g, loops |-> lp]
 \* (vod0 < loop: the domain of the oracle's IdxOfStart)
 Adm(S) == { s \in S : Admissible(Sc(s)) /\ s.vod0 < ISum(s.dur, s.N) }
 SnrAst == {<<0, 0>>, <<1, 0>>, <<5, 1>>, <<0, 2>>}
@@ -41,14 +41,11 @@ SubMsSet == { s \in FineThorough : s.TS = 1500 /\ s.ato = 1 /\ s.ast = 0 }
 ConfigsQuick == FineQuick \cup CoarseQuick \cup ThirdQuick
 ConfigsThorough == FineThorough \cup CoarseThorough \cup ThirdThorough
 
-\* ---- first decode time not 0 (the code deviates from the oracle: open findings C02-vod0 / C05-vod0)
+\* ---- first decode time not 0 (before 27fa7f8 / 52d2ae2 the code deviated from the oracle here: *_cex_vod0_* with Fix = FALSE)
 Vod0Quick == Adm({ Mk(d, v, 1000, 0, a, 0, x, 1, 2) : d \in {<<2, 3>>, <<5, 2, 3>>}, v \in {1, 3}, a \in {0, 1, 4}, x \in {0, 1} })
              \cup Adm({ Mk(d, v, 4, tb, a, 1, 0, 50, 2) : d \in {<<1, 3>>, <<4, 2, 2>>}, v \in {1, 2}, tb \in {0, 1}, a \in {0, 100} })
 Vod0Thorough == Adm({ Mk(d, v, 1000, 0, a, x[1], x[2], 1, 3) : d \in FineDur1000, v \in {1, 3}, a \in {0, 1, 4, 7, -1}, x \in {<<0, 0>>, <<5, 1>>} })
              \cup Adm({ Mk(d, v, 4, tb, a, x[1], x[2], 50, 2) : d \in CoarseDur, v \in {1, 2}, tb \in {0, 1, 2}, a \in {0, 100, 1300}, x \in {<<0, 0>>, <<5, 1>>} })
-
-\* (the transcription of the proposed fixes is checked on this part in the thorough tier)
-Vod0Mid == { s \in Vod0Thorough : s.ato \in {0, 4, 100} }
 
 \* ---- replayed into the real server (GEN lines)
 GenQuick == { s \in FineQuick : s.ato \in {0, 4, -1} } \cup { s \in CoarseQuick : s.ato # 0 \/ s.tsbd = 1 }
